@@ -163,3 +163,124 @@ theorem forced_worldOf (ν : BaseValues) (S : List Iv) (i : Iv) (hi : i ∈ S) (
       exact ih hi' (fun a ha b hb => hS a (by simp [ha]) b (by simp [hb]))
 
 end Y0.Fscm
+
+namespace Y0.Fscm
+
+/-- generalisation of `prob_filter_of_always` to a list that is mapped to conjuncts -/
+theorem prob_map_filter {α} (M : Model) (l : List α) (f : α → Conjunct) (keep : α → Bool)
+    (h : ∀ a ∈ l, keep a = false → ∀ u, holds M u (f a) = true) :
+    prob M ((l.filter keep).map f) = prob M (l.map f) := by
+  apply prob_congr
+  intro u
+  rw [Bool.eq_iff_iff]
+  simp only [List.all_eq_true, List.mem_map, List.mem_filter]
+  constructor
+  · rintro hall c ⟨a, ha, rfl⟩
+    by_cases hk : keep a = true
+    · exact hall _ ⟨a, ⟨ha, hk⟩, rfl⟩
+    · exact h a ha (by simpa using hk) u
+  · rintro hall c ⟨a, ⟨ha, _⟩, rfl⟩
+    exact hall _ ⟨a, ha, rfl⟩
+
+/-- an event over variables of the model, with values named after their variable and consistent subscript sets:
+the quantifier of C07 / C08 / C18 ("V under interventions S takes value v, S a consistent value assignment") -/
+structure EventWF (M : Model) (ev : List (Var × Iv)) : Prop where
+  names : ∀ p ∈ ev, p.2.name = p.1.name
+  inModel : ∀ p ∈ ev, p.1.name ∈ M.order
+  subs : ∀ p ∈ ev, ConsistentSubs p.1.ivs
+
+/-- a conjunct `V_S = v` whose subscript fixes `V` itself to the OTHER value never holds -/
+theorem holds_false_of_effectiveness (M : Model) (ν : BaseValues) (hν : ν.Distinct) (p : Var × Iv) (i : Iv)
+    (hi : i ∈ p.1.ivs) (hname : i.name = p.2.name) (hstar : i.star ≠ p.2.star)
+    (hn : p.2.name = p.1.name) (hm : p.1.name ∈ M.order) (hs : ConsistentSubs p.1.ivs) (u : NoisePoint) :
+    holds M u (conjunctOf ν p) = false := by
+  have hf := forced_worldOf ν p.1.ivs i hi hs
+  apply holds_false_of_forced_ne M u (conjunctOf ν p) (ivValue ν i) hm
+  · simpa [conjunctOf, hname, hn] using hf
+  · simp only [conjunctOf, ivValue, hname]
+    rcases i with ⟨n, s⟩
+    rcases p with ⟨v, ⟨n', s'⟩⟩
+    simp only at hname hstar hn ⊢
+    subst hname
+    cases s <;> cases s'
+    · exact absurd rfl hstar
+    · exact hν n
+    · exact (hν n).symm
+    · exact absurd rfl hstar
+
+/-- a conjunct `V_S = v` whose subscript fixes `V` itself to the SAME value always holds -/
+theorem holds_true_of_tautology (M : Model) (ν : BaseValues) (p : Var × Iv) (i : Iv)
+    (hi : i ∈ p.1.ivs) (hname : i.name = p.2.name) (hstar : i.star = p.2.star)
+    (hn : p.2.name = p.1.name) (hm : p.1.name ∈ M.order) (hs : ConsistentSubs p.1.ivs) (u : NoisePoint) :
+    holds M u (conjunctOf ν p) = true := by
+  have hf := forced_worldOf ν p.1.ivs i hi hs
+  apply holds_true_of_forced_eq M u (conjunctOf ν p) hm
+  have : ivValue ν i = ivValue ν p.2 := by simp [ivValue, hname, hstar]
+  simpa [conjunctOf, hname, hn, this] using hf
+
+end Y0.Fscm
+
+namespace Y0.Fscm
+
+/-! ### the structural equation holds in every world (semantic core of Lemma 24) -/
+
+theorem foldl_step_not_mem (M : Model) (u : NoisePoint) (d : Do) (l : List Name) (σ : Valuation) (w : Name)
+    (hw : w ∉ l) : (l.foldl (step M u d) σ) w = σ w := by
+  induction l generalizing σ with
+  | nil => rfl
+  | cons v vs ih =>
+    simp only [List.foldl_cons]
+    simp only [List.mem_cons, not_or] at hw
+    rw [ih _ hw.2, step_other M u d σ v w hw.1]
+
+/-- `order` evaluates parents first (what `Compatible.topo` states) -/
+def TopoOrder (M : Model) : Prop :=
+  M.order.Nodup ∧ ∀ l₁ v l₂, M.order = l₁ ++ v :: l₂ → ∀ p ∈ M.pa v, p ∈ l₁
+
+/-- **Structural equation.**  A variable that the world does not force takes the value its mechanism computes from the
+values of its parents in that world and the (shared) noise. -/
+theorem solve_unforced (M : Model) (hM : TopoOrder M) (u : NoisePoint) (d : Do) (v : Name) (hv : v ∈ M.order)
+    (hf : forced d v = none) :
+    solve M u d v = M.f v ((M.pa v).map (solve M u d)) ((M.lat v).map fun j => u.getD j 0) := by
+  obtain ⟨l₁, l₂, hsplit⟩ := List.append_of_mem hv
+  have hnd := hM.1
+  rw [hsplit] at hnd
+  have hv1 : v ∉ l₁ := fun h => by
+    have := List.nodup_append.1 hnd
+    exact this.2.2 v h v (by simp) rfl
+  have hv2 : v ∉ l₂ := (List.nodup_cons.1 (List.nodup_append.1 hnd).2.1).1
+  have hdisj : ∀ p ∈ l₁, p ∉ v :: l₂ := fun p hp hq => (List.nodup_append.1 hnd).2.2 p hp p hq rfl
+  unfold solve
+  rw [hsplit, List.foldl_append, List.foldl_cons]
+  set σ₁ := l₁.foldl (step M u d) (fun _ => 0) with hσ₁
+  -- value of v after its own step, unchanged afterwards
+  rw [foldl_step_not_mem M u d l₂ _ v hv2]
+  have hstep : step M u d σ₁ v v = M.f v ((M.pa v).map σ₁) ((M.lat v).map fun j => u.getD j 0) := by
+    simp [step, hf, update]
+  rw [hstep]
+  congr 1
+  apply List.map_congr_left
+  intro p hp
+  have hp1 : p ∈ l₁ := hM.2 l₁ v l₂ hsplit p hp
+  have hpn := hdisj p hp1
+  simp only [List.mem_cons, not_or] at hpn
+  rw [foldl_step_not_mem M u d l₂ _ p hpn.2, step_other M u d σ₁ v p hpn.1]
+
+/-- **Lemma 24, semantic form.**  Two copies `V` under `d₁` and `V` under `d₂` of a variable that neither world forces have
+the same mechanism; if all their parents take the same values at the noise point `u`, so do they.  (What remains OPEN for
+C18 is that the syntactic test `lemma24Holds` of cg.py guarantees this premise wherever the rest of the event holds.) -/
+theorem solve_eq_of_parents_eq (M : Model) (hM : TopoOrder M) (u : NoisePoint) (d₁ d₂ : Do) (v : Name) (hv : v ∈ M.order)
+    (h₁ : forced d₁ v = none) (h₂ : forced d₂ v = none)
+    (hpa : ∀ p ∈ M.pa v, solve M u d₁ p = solve M u d₂ p) : solve M u d₁ v = solve M u d₂ v := by
+  rw [solve_unforced M hM u d₁ v hv h₁, solve_unforced M hM u d₂ v hv h₂]
+  congr 1
+  exact List.map_congr_left hpa
+
+/-- a parentless, un-forced variable is the same random variable in every world -/
+theorem solve_root (M : Model) (hM : TopoOrder M) (u : NoisePoint) (d₁ d₂ : Do) (v : Name) (hv : v ∈ M.order)
+    (h₁ : forced d₁ v = none) (h₂ : forced d₂ v = none) (hroot : M.pa v = []) : solve M u d₁ v = solve M u d₂ v :=
+  solve_eq_of_parents_eq M hM u d₁ d₂ v hv h₁ h₂ (by simp [hroot])
+
+theorem Compatible.topoOrder {M : Model} {G : MG Name} (h : Compatible M G) : TopoOrder M := ⟨h.nodup, h.topo⟩
+
+end Y0.Fscm
